@@ -27,6 +27,7 @@ Theorem C11_invariant :
   InvB pickle meta code f cur
     (fst (grun evs (s, map (fun sp => Some (sess pickle unpickle meta parse_meta code code_eq decodes gitbytes f sp)) sps))).
 Proof. exact fresh_global. Qed.
+Print Assumptions C11_invariant.
 
 (* every cached call (plain or shelved) that returns a value returns f cur k -- in every
    participant, under every schedule, whatever the others do (calls with equal or different
@@ -40,6 +41,7 @@ Theorem C11_values :
     = Some (Some (Ret outs)) ->
   (exists e, outs = [OExn e]) \/ Forall2 (call_ok f cur) (spec_acts sp) outs.
 Proof. exact values_global. Qed.
+Print Assumptions C11_values.
 
 (* concurrent writers of one entry leave one complete result, never a mixture: at every moment
    <k>/output.pkl, if present, is exactly pickle (f cur k), and <k>/metadata.json the whole json *)
@@ -49,6 +51,7 @@ Theorem C11_single_winner :
   let s' := fst (grun evs (s, map (fun sp => Some (sess pickle unpickle meta parse_meta code code_eq decodes gitbytes f sp)) sps)) in
   (lookup (POut k) s' = Some b -> b = pickle (f cur k)) /\ (lookup (PMeta k) s' = Some b -> b = meta).
 Proof. exact single_winner_global. Qed.
+Print Assumptions C11_single_winner.
 
 (* Full statement "no cached call raises because of the concurrent activity", FALSE of the code
    (finding F14): a first call in a process racing with another process's Memory.clear():
@@ -66,6 +69,7 @@ Proof.
              (InvB_empty Toy.pickle Toy.meta Toy.code Toy.f 1))).
   - exact f14_witness.
 Qed.
+Print Assumptions C11_no_raise_refuted.
 
 (* What is true: when the cache is warm (the directories exist and func_code.py holds the current
    source) and no participant clears (Memory.clear / MemorizedFunc.clear) -- calls with or without
@@ -84,6 +88,7 @@ Proof.
   intros pickle unpickle meta parse_meta code code_eq decodes gitbytes f cur sps evs s i sp outs Hup Hdec Heq.
   exact (warm_no_raise pickle unpickle meta parse_meta code code_eq decodes gitbytes f cur Hdec Heq Hup sps evs s i sp outs).
 Qed.
+Print Assumptions C11_no_raise_partial.
 
 Example C11_hypotheses_satisfiable :
   InvB Toy.pickle Toy.meta Toy.code Toy.f 1 toy_s1 /\ Warm Toy.code 1 toy_s1 /\
@@ -94,3 +99,4 @@ Proof.
            Toy.gitbytes Toy.f 1 toy_unpickle_pickle (fun j => toy_decodes_prefix 1 j eq_refl) 1 None [1; 2] []
            (InvB_empty Toy.pickle Toy.meta Toy.code Toy.f 1))).
 Qed.
+Print Assumptions C11_hypotheses_satisfiable.
